@@ -41,14 +41,16 @@ CONSTANTS MaxBr, MaxRep, MaxTerm,   \* shape bounds
           Mode,                    \* "sat": tree x choice x falsification; "mut": tree x choice x tampering;
                                    \* "name": tree x choice x name length x verifier's protocol-name class
           Wraps,                   \* subset of {"min", "full"}: elide / keep trivial Or and And nodes
+          Nests,                   \* set of m: the LAST m branches (m >= 2, at least one branch before them) form an Or nested in
+                                   \* the top-level Or; 0 = flat
           Runs,                    \* how many times the SAME Prover closure and the SAME Verifier closure are run (set of naturals >= 1)
           NameLens,                \* lengths of the prover's protocol name (mode "name": {0, 1, 63, 64, 65, 200})
           Faults                   \* subset of 0..3: the transport of the interactive protocol fails at that round (0 = never)
 
-VARIABLES phase, tree, choice, wrap, fals, mut, fault, nlen, runs, hist,
+VARIABLES phase, tree, choice, wrap, fals, mut, fault, nlen, runs, nest, hist,
           ms, mb, nt      \* bookkeeping of the canonical construction: largest scalar variable / base used, number of terms
-vars == <<phase, tree, choice, wrap, fals, mut, fault, nlen, runs, hist, ms, mb, nt>>
-View == <<phase, tree, choice, wrap, fals, mut, fault, nlen, runs>>
+vars == <<phase, tree, choice, wrap, fals, mut, fault, nlen, runs, nest, hist, ms, mb, nt>>
+View == <<phase, tree, choice, wrap, fals, mut, fault, nlen, runs, nest>>
 
 Max2(a, b) == IF a > b THEN a ELSE b
 NBr       == Len(tree)
@@ -73,7 +75,16 @@ SubCh   == IF NBr > 1 THEN [b \in 1..NBr |-> [t |-> "C", b |-> b, x |-> 0]] ELSE
 Resps   == LET f[b \in 0..NBr] == IF b = 0 THEN <<>>
                                   ELSE f[b - 1] \o LET vs == SetToSortedSeq(VarsIn(b)) IN [i \in 1..Len(vs) |-> [t |-> "R", b |-> b, x |-> vs[i]]]
            IN f[NBr]
-Items   == Commits \o SubCh \o Resps
+RespsOf(lo, hi) == LET f[b \in (lo - 1)..hi] == IF b = lo - 1 THEN <<>>
+                                  ELSE f[b - 1] \o LET vs == SetToSortedSeq(VarsIn(b)) IN [i \in 1..Len(vs) |-> [t |-> "R", b |-> b, x |-> vs[i]]]
+                   IN f[hi]
+\* nested Or (the last `nest` branches): the outer Or sends NBr-nest+1 sub-challenges, the responses of its plain
+\* branches follow, then the inner Or's `nest` sub-challenges and the responses of its branches
+ItemsN(m) == IF m = 0 THEN Commits \o SubCh \o Resps
+           ELSE Commits \o [i \in 1..(NBr - m + 1) |-> [t |-> "C", b |-> i, x |-> 0]] \o RespsOf(1, NBr - m)
+                        \o [i \in 1..m |-> [t |-> "C", b |-> NBr - m + i, x |-> 1]] \o RespsOf(NBr - m + 1, NBr)
+Items   == ItemsN(nest)
+KindsN(m) == LET its == ItemsN(m) IN [i \in 1..Len(its) |-> its[i].t]
 ItemKinds == LET its == Items IN [i \in 1..Len(its) |-> its[i].t]
 \* private randomness drawn by the prover: one pre-challenge per unproven branch, one blinding per variable per branch
 NPriRand == (IF NBr > 1 THEN NBr - 1 ELSE 0) + LET f[b \in 0..NBr] == IF b = 0 THEN 0 ELSE f[b - 1] + Cardinality(VarsIn(b)) IN f[NBr]
@@ -101,7 +112,7 @@ MustDen == IF fault # 0 THEN "rej"
 
 -----------------------------------------------------------------------------
 Init == /\ phase = "build" /\ tree = << << <<>> >> >> /\ choice = 0 /\ wrap = "min"
-        /\ fals = NoFals /\ mut = NoMut /\ fault = 0 /\ nlen = 0 /\ runs = 1 /\ hist = <<>> /\ ms = 0 /\ mb = 0 /\ nt = 0
+        /\ fals = NoFals /\ mut = NoMut /\ fault = 0 /\ nlen = 0 /\ runs = 1 /\ nest = 0 /\ hist = <<>> /\ ms = 0 /\ mb = 0 /\ nt = 0
 
 LastB == tree[NBr]
 LastR == LastB[Len(LastB)]
@@ -113,24 +124,24 @@ AddTerm ==
        /\ s <= ms + 1 /\ b <= mb + 1              \* canonical introduction order
        /\ tree' = SetLastRep(Append(LastR, [s |-> s, b |-> b]))
        /\ ms' = Max2(ms, s) /\ mb' = Max2(mb, b) /\ nt' = nt + 1
-  /\ UNCHANGED <<phase, choice, wrap, fals, mut, fault, nlen, runs, hist>>
+  /\ UNCHANGED <<phase, choice, wrap, fals, mut, fault, nlen, runs, nest, hist>>
 
 NewRep ==
   /\ phase = "build" /\ Len(LastR) > 0 /\ Len(LastB) < MaxRep
   /\ tree' = [tree EXCEPT ![NBr] = Append(@, <<>>)]
-  /\ UNCHANGED <<phase, choice, wrap, fals, mut, fault, nlen, runs, hist, ms, mb, nt>>
+  /\ UNCHANGED <<phase, choice, wrap, fals, mut, fault, nlen, runs, nest, hist, ms, mb, nt>>
 
 NewBranch ==
   /\ phase = "build" /\ Len(LastR) > 0 /\ NBr < MaxBr
   /\ tree' = Append(tree, << <<>> >>)
-  /\ UNCHANGED <<phase, choice, wrap, fals, mut, fault, nlen, runs, hist, ms, mb, nt>>
+  /\ UNCHANGED <<phase, choice, wrap, fals, mut, fault, nlen, runs, nest, hist, ms, mb, nt>>
 
 FalsMenu == {NoFals}
        \cup (IF Mode = "sat" THEN {[k |-> "s", i |-> v, j |-> 0] : v \in 1..MaxS}
                                   \cup {[k |-> "p", i |-> b, j |-> r] : b \in 1..NBr, r \in 1..MaxRep} ELSE {})
 
 ProveRec(its, npr) ==
-  [op |-> "prove", tree |-> tree, choice |-> choice', wrap |-> wrap', fals |-> fals', fault |-> fault', nlen |-> nlen', runs |-> runs',
+  [op |-> "prove", tree |-> tree, choice |-> choice', wrap |-> wrap', fals |-> fals', fault |-> fault', nlen |-> nlen', runs |-> runs', nest |-> nest',
    items |-> its, nprirand |-> npr,
    truth |-> [b \in 1..NBr |-> LET ff == fals' IN
                 \A r \in Reps(b) : ~(\/ ff.k = "s" /\ \E t \in 1..Len(tree[b][r]) : tree[b][r][t].s = ff.i
@@ -141,7 +152,8 @@ ProveRec(its, npr) ==
 Prove ==
   /\ phase = "build" /\ Len(LastR) > 0
   /\ UNCHANGED <<tree, mut, ms, mb, nt>>
-  /\ LET its == ItemKinds  npr == NPriRand IN      \* evaluated once per tree, not once per successor
+  /\ \E ns \in Nests : (ns = 0 \/ (ns >= 2 /\ NBr - ns >= 1)) /\ nest' = ns /\
+     LET its == KindsN(ns)  npr == NPriRand IN      \* evaluated once per tree and nesting, not once per successor
      \E c \in 1..NBr, w \in Wraps, f \in FalsMenu, fl \in Faults, nl \in NameLens, rn \in Runs :
        /\ fault' = fl /\ nlen' = nl /\ runs' = rn
        /\ (f.k = "p" => f.j <= Len(tree[f.i]))
@@ -193,7 +205,7 @@ MutOK(m) ==
 
 Tamper ==
   /\ phase = "tamper"
-  /\ UNCHANGED <<tree, choice, wrap, fals, fault, nlen, runs, ms, mb, nt>>
+  /\ UNCHANGED <<tree, choice, wrap, fals, fault, nlen, runs, nest, ms, mb, nt>>
   /\ \E m \in MutMenu \cup {NoMut} :
        /\ MutOK(m) /\ mut' = m
        /\ hist' = hist \o <<[op |-> "tamper", m |-> m], [op |-> "verify", must |-> Must', mustden |-> MustDen']>>
@@ -215,7 +227,7 @@ FalsLocal == Judged /\ fals.k = "s" => (BranchTrue(choice) <=> fals.i \notin Var
 TreeDone == phase = "build" /\ Len(LastR) > 0
 FaultNeverAccepted == Judged /\ fault # 0 => MustDen = "rej"
 \* transcript size formula
-ItemCount == TreeDone => Len(Items) = NReps + (IF NBr > 1 THEN NBr ELSE 0)
+ItemCount == TreeDone => Len(Items) = NReps + (IF NBr > 1 THEN NBr ELSE 0) + (IF nest > 0 THEN 1 ELSE 0)
                                    + LET f[b \in 0..NBr] == IF b = 0 THEN 0 ELSE f[b - 1] + Cardinality(VarsIn(b)) IN f[NBr]
 \* commitments strictly precede sub-challenges and responses
 CommitFirst == TreeDone => LET its == ItemKinds IN \A i, j \in 1..Len(its) : (its[i] = "V" /\ its[j] # "V") => i < j
